@@ -303,15 +303,22 @@ func fillRegex(h *history, mst string, at *reAtom, neg bool) error {
 	}
 	valPrefix := full[len(itemPrefix):]
 	ors := vtf.OrSuffixes()
-	pre, perr := regexp.Compile(at.value)
+	// prune step (matchSeriesKeyTagFilter): substring test for a literal regexp, else the regexp
+	// of tf.value matched unanchored
+	var pre *regexp.Regexp
+	var perr error
+	lit := vtf.IsLiteralRegexp()
+	if !lit {
+		pre, perr = regexp.Compile(at.value)
+	}
 	prune := func(v string) byte {
-		if perr != nil {
+		switch {
+		case lit:
+			return b2c(strings.Contains(v, at.value))
+		case perr != nil:
 			return 'X'
 		}
-		if pre.MatchString(v) {
-			return '1'
-		}
-		return '0'
+		return b2c(pre.MatchString(v))
 	}
 	at.rows = at.rows[:0]
 	at.rows = append(at.rows, reRow{absent: true, spec: at.re.MatchString(""), prune: prune("")})
